@@ -95,6 +95,11 @@ func (n *simNode) Run(ctx context.Context) {
 		case msg := <-n.messages:
 			n.d.OnReceive(msg)
 		}
+
+		// A block was accepted, dBFT has to be reinitialized at the new height.
+		if n.d.BlockIndex <= n.height {
+			n.d.Reset(n.d.Timestamp)
+		}
 	}
 }
 
